@@ -384,7 +384,9 @@ func cmdCheck(args []string) int {
 		"jobs":                           len(jobs),
 		"jobs_per_harness":               jobCount,
 		"ssa_steps":                      steps,
-		"obligations":                    map[string]int{"concrete": oc, "syntactic": osy, "solver": oso, "failed": of, "inconclusive": oi},
+		"obligations":                    oc + osy + oso + of + oi,
+		"discharged":                     oc + osy + oso,
+		"obligation_breakdown":           map[string]int{"concrete_or_constant_folded": oc, "implied_by_path_condition": osy, "solver_unsat": oso, "failed": of, "inconclusive": oi},
 		"queries":                        map[string]int64{"total": st.Queries, "sat": st.Sat, "unsat": st.Unsat, "unknown": st.Unknown, "errors": st.Errors, "fallback_runs": st.Fallbacks},
 		"solver_s":                       float64(st.NanosZ3+st.NanosFB) / 1e9,
 		"solvers":                        "z3 4.8.12 (primary, incremental per path); cvc5 1.0.3 and z3 5.1.0 one-shot on unknown",
